@@ -642,8 +642,9 @@ func runC06(r *engine.Run) {
 			}
 		})
 	}
-	r.PartDims("join/JoinAccept", []string{"position:12", "byte:256", "cflist:2"}, 12*256*2, func(c *engine.Case) {
+	r.PartDims("join/JoinAccept", []string{"position:12", "byte:256", "cflist{absent, channel list, channel masks}:3"}, 12*256*3, func(c *engine.Case) {
 		withCF := c.Index >= 12*256
+		masks := c.Index >= 2*12*256
 		idx := c.Index % (12 * 256)
 		b := make([]byte, 12)
 		for k := range b {
@@ -653,6 +654,9 @@ func runC06(r *engine.Run) {
 		b[idx/256] = byte(idx)
 		if withCF {
 			b = append(b, 0x18, 0x4F, 0x84, 0xE8, 0x56, 0x84, 0xB8, 0x5E, 0x84, 0x88, 0x66, 0x84, 0x58, 0x6E, 0x84, 0x00)
+		}
+		if masks {
+			b = append(b[:12], 0xFF, 0x00, 0x00, 0x00, 0x01, 0x80, 0x00, 0x00, 0x00, 0x00, 0x00, 0x00, 0x00, 0x00, 0x00, 0x01)
 		}
 		var j lorawan.JoinAcceptPayload
 		if err := j.UnmarshalBinary(false, b); err != nil {
@@ -666,7 +670,13 @@ func runC06(r *engine.Run) {
 			c.Fail("decode/JoinAccept", fmt.Sprintf("%x decodes to %+v", b, j), nil)
 			return
 		}
-		if withCF {
+		if masks {
+			mp, ok := j.CFList.Payload.(*lorawan.CFListChannelMaskPayload)
+			if !ok || j.CFList.CFListType != lorawan.CFListChannelMask || len(mp.ChannelMasks) != 3 || maskOf(mp.ChannelMasks[0]) != 0x00FF || maskOf(mp.ChannelMasks[1]) != 0 || maskOf(mp.ChannelMasks[2]) != 0x8001 {
+				c.Fail("decode/JoinAccept/CFList", fmt.Sprintf("%x (DLSettings %02x): CFList type %d payload %+v, specification: type 1, masks 00ff 0000 8001", b, b[10], j.CFList.CFListType, j.CFList.Payload), nil)
+				return
+			}
+		} else if withCF {
 			cp, ok := j.CFList.Payload.(*lorawan.CFListChannelPayload)
 			if !ok || cp.Channels != [5]uint32{867100000, 867300000, 867500000, 867700000, 867900000} {
 				c.Fail("decode/JoinAccept/CFList", fmt.Sprintf("%x: CFList %+v", b, j.CFList.Payload), nil)
